@@ -119,11 +119,16 @@ PatchesDecoded(reqs) ==
 WholeCovered(pre, reqs, u) ==
   \E i \in DOMAIN reqs : /\ reqs[i].op \in {"del", "rep"} /\ reqs[i].u = u /\ reqs[i].off = 0
                           /\ reqs[i].len = BlockByU(pre, u).n /\ reqs[i].len > 0
+\* ... also when several partial deletions / replacements cover every unit of the block
+AllUnitsCoveredBy(pre, reqs, u) ==
+  LET b == BlockByU(pre, u)
+  IN  /\ b.units # <<>>
+      /\ \A j \in DOMAIN b.units : Covered(reqs, u, b.units[j].o)
 NoInsertIntoDeletedOrEmpty(pre, reqs) ==
   \A i \in DOMAIN reqs :
      reqs[i].op \in {"ins", "rep"} =>
         /\ BlockByU(pre, reqs[i].u).n > 0
-        /\ (reqs[i].op = "ins" => ~WholeCovered(pre, reqs, reqs[i].u))
+        /\ (reqs[i].op = "ins" => ~WholeCovered(pre, reqs, reqs[i].u) /\ ~AllUnitsCoveredBy(pre, reqs, reqs[i].u))
 
 NoAlignment(st) ==
   \A i \in DOMAIN st.secs : \A j \in DOMAIN st.secs[i].blocks : st.secs[i].blocks[j].al \in {0, 1}
